@@ -70,7 +70,7 @@ def run_case(args):
     idx, case, root = args
     digest = hashlib.sha256(("c16-%d-%s" % (idx, case["seed"])).encode()).digest()
     t = tacdlib.Tacd(os.path.join(root, "t%05d" % idx), case["shown"], tacdlib.proof_text(digest), release=False, listener=case["listener"],
-                     source=case["source"], key_type=case.get("key_type"), digest=case.get("digest"))
+                     source=case["source"], key_type=case.get("key_type"), digest=case.get("digest"), daemon=bool(case.get("daemon")))
     ev = [{"e": "Reset", "domain": "dns:" + case["canon"], "value": "0420" + digest.hex(), "case": {k: v for k, v in case.items() if k != "offers"}}]
     try:
         if not t.started:
@@ -128,6 +128,11 @@ def run(ctx):
         for j, source in enumerate(("flag", "file", "stdin")):
             cases.append({"canon": canon, "shown": shown, "listener": "tcp" if (i + j) % 2 else "unix", "source": source, "offers": [[tacdlib.ACME], ["h2"]], "seed": 2000 + 3 * i + j,
                           "long": True})
+    # started the way the manual and the shipped hooks start it: detached, with a pid file (values by flag or file: a detached process
+    # has no standard input to read from)
+    for i, (canon, shown) in enumerate(doms[:4]):
+        cases.append({"canon": canon, "shown": shown, "listener": "tcp" if i % 2 else "unix", "source": ["flag", "file"][i % 2], "offers": [[tacdlib.ACME], ["h2"]], "seed": 3000 + i,
+                      "daemon": True})
     root = fresh_dir("C16", "runs")
     lines, owner = [], []
     with cf.ThreadPoolExecutor(max_workers=10) as ex:
